@@ -7,7 +7,7 @@ CONSTANTS
   FixD7 = TRUE
   MaxCfg = 2
   MaxParse = 2
-  Family = "c16"
+  Family = "c15"
   Reconfigure = FALSE
   Emit = TRUE
 INVARIANTS
